@@ -208,6 +208,8 @@ func (n *names) real(tok string) string {
 	switch {
 	case tok == "LONG":
 		r = strings.Repeat("L", 256)
+	case strings.HasPrefix(tok, "BS"):
+		r = tok + "\\..." // an ordinary name on Linux that happens to end in \...
 	case n.tbl == 0:
 		r = tok
 	default:
@@ -1062,6 +1064,9 @@ func (s *scen) stepCall(st *Step) {
 			})
 			line["tree"] = tree
 		}
+	}
+	if st.Op == "watchlist" && !st.Async {
+		s.quiesce() // the library has handled everything it can handle on its own before the list is taken
 	}
 	pc := &pendingCall{done: make(chan J, 1), op: st.Op, w: st.W}
 	W := w.W
